@@ -1129,7 +1129,15 @@ Proof.
   - destruct (compile a) as [cc|] eqn:E; [|discriminate C]. inversion C; subst. destruct (IH cc eq_refl) as [B1 B2]. constructor; assumption.
   - destruct (compile a) as [cc|] eqn:E; [|discriminate C]. inversion C; subst. destruct (IH cc eq_refl) as [B1 B2].
     constructor; cbn [base_rows c_from c_cols c_defs]; [exact B1|]. apply base_new_defs. exact B2.
-  - destruct m; [discriminate C|]. apply IH. exact C.
+  - destruct m as [m|]; [|apply IH; exact C].
+    destruct (compile a) as [cc|] eqn:E; [|discriminate C]. inversion C; subst; clear C. destruct (IH cc eq_refl) as [B1 B2].
+    constructor; cbn [base_rows c_from c_cols c_defs]; [exact B1|].
+    intros x y H. destruct (def_of_app_cases (map (fun on : uid * uid => (snd on, def_of (c_defs cc) (fst on))) m) (c_defs cc) x) as [E2|E2];
+      rewrite E2 in H; [|apply (B2 x y H)].
+    unfold def_of at 1 in H.
+    destruct (assoc_u x (map (fun on : uid * uid => (snd on, def_of (c_defs cc) (fst on))) m)) as [e|] eqn:Ea; [|destruct H].
+    clear -Ea H B2. induction m as [|[o n] m IHm]; simpl in Ea; [discriminate|].
+    destruct (N.eqb x n); [inversion Ea; subst; apply (B2 o y H)|apply IHm; exact Ea].
   - destruct (alias_some_dec a) as [[c0 [m ->]]|Hna].
     + rewrite compile_marker_alias in C. destruct (compile c0) as [cc|] eqn:E; [|discriminate C]. inversion C; subst; clear C.
       constructor; cbn [alias_marker_compiled base_rows c_from c_cols c_defs].
@@ -1865,6 +1873,92 @@ Proof.
   - rewrite G. reflexivity.
 Qed.
 
+(* ---------- plain alias(): new identities for the same columns ---------- *)
+Definition alias_compiled (m : list (uid * uid)) (cc : compiled) : compiled :=
+  let q := c_q cc in
+  {| c_from := c_from cc; c_cols := c_cols cc;
+     c_q := set_part (set_select q (map (remap_uid m) (q_select q))) (map (remap_uid m) (q_part q));
+     c_labels := map (fun on => (snd on, label (c_labels cc) (fst on))) m ++ c_labels cc;
+     c_defs := map (fun on => (snd on, def_of (c_defs cc) (fst on))) m ++ c_defs cc;
+     c_scope := map (remap_uid m) (c_scope cc) |}.
+
+Lemma remap_in m x : In x (map fst m) -> In (x, remap_uid m x) m.
+Proof.
+  unfold remap_uid. induction m as [|[o n] m IH]; intros H; [destruct H|]. simpl.
+  destruct (N.eqb_spec x o) as [E|E]; [subst; left; reflexivity|].
+  destruct H as [H|H]; [simpl in H; congruence|]. right. apply IH. exact H.
+Qed.
+
+Lemma assoc_alias {V} (g : uid -> V) (m : list (uid * uid)) x :
+  In x (map fst m) -> NoDup (map snd m) -> NoDup (map fst m) ->
+  assoc_u (remap_uid m x) (map (fun on => (snd on, g (fst on))) m) = Some (g x).
+Proof.
+  intros Hx ND NF. pose proof (remap_in m x Hx) as Hin. set (n := remap_uid m x) in *. clearbody n. clear Hx.
+  induction m as [|[o k] m IH]; [destruct Hin|]. simpl in *.
+  inversion ND as [|? ? Hk ND']; subst. inversion NF as [|? ? Ho NF']; subst.
+  destruct Hin as [E|Hin].
+  - inversion E; subst. rewrite N.eqb_refl. reflexivity.
+  - destruct (N.eqb_spec n k) as [E|E].
+    + subst. exfalso. apply Hk. apply in_map_iff. exists (x, k). split; [reflexivity|exact Hin].
+    + apply IH; assumption.
+Qed.
+
+Lemma alias_case d s cc m (U : list uid) :
+  Inv d s cc -> Aux cc -> keys_in U (rows s) ->
+  (forall a b, In a (U ++ c_scope cc ++ map fst (c_labels cc) ++ map fst (c_defs cc)) ->
+               In b (U ++ c_scope cc ++ map fst (c_labels cc) ++ map fst (c_defs cc)) ->
+               remap_uid m a = remap_uid m b -> a = b) ->
+  NoDup (map snd m) -> NoDup (map fst m) ->
+  (forall x, In x (map snd m) -> ~ In x (map fst (c_defs cc))) ->
+  (forall x, In x (map snd m) -> ~ In x (map fst (c_labels cc))) ->
+  (forall x, In x (c_scope cc) -> In x (map fst m)) ->
+  Inv d (do_alias s (Some m)) (alias_compiled m cc) /\ Aux (alias_compiled m cc).
+Proof.
+  intros [R S G] A KU Inj NDs NDf Fd Fl Dom. set (ca := alias_compiled m cc).
+  set (V := U ++ c_scope cc ++ map fst (c_labels cc) ++ map fst (c_defs cc)) in *.
+  assert (VU : forall x, In x U -> In x V) by (intros x Hx; unfold V; apply in_or_app; left; exact Hx).
+  assert (VS : forall x, In x (c_scope cc) -> In x V) by (intros x Hx; unfold V; apply in_or_app; right; apply in_or_app; left; exact Hx).
+  assert (Hother : forall x, In x (map fst (c_defs cc)) -> def_of (c_defs ca) x = def_of (c_defs cc) x).
+  { intros x Hx. unfold ca, alias_compiled. cbn [c_defs]. apply def_of_app_other. rewrite map_map. cbn [fst].
+    intros C. apply (Fd x C Hx). }
+  assert (DefNew : forall x, In x (c_scope cc) -> def_of (c_defs ca) (remap_uid m x) = def_of (c_defs cc) x).
+  { intros x Hx. unfold ca, alias_compiled, def_of. cbn [c_defs].
+    rewrite (assoc_u_app_found _ _ _ _ (assoc_alias (fun o => def_of (c_defs cc) o) m x (Dom x Hx) NDs NDf)). reflexivity. }
+  assert (LabNew : forall x, In x (c_scope cc) -> label (c_labels ca) (remap_uid m x) = label (c_labels cc) x).
+  { intros x Hx. unfold ca, alias_compiled, label. cbn [c_labels].
+    rewrite (assoc_u_app_found _ _ _ _ (assoc_alias (fun o => label (c_labels cc) o) m x (Dom x Hx) NDs NDf)). reflexivity. }
+  assert (FU : final_units d ca = final_units d cc).
+  { apply final_units_ext; try reflexivity; [exact Hother|exact A]. }
+  assert (DomNew : forall x, In x (c_scope cc) -> In (remap_uid m x) (map fst (c_defs ca))).
+  { intros x Hx. unfold ca, alias_compiled. cbn [c_defs]. rewrite map_app. apply in_or_app. left. rewrite map_map. cbn [fst].
+    apply in_map_iff. exists (x, remap_uid m x). split; [reflexivity|apply remap_in; apply Dom; exact Hx]. }
+  split.
+  - constructor; cbn [rows sel group do_alias].
+    + rewrite FU. apply Forall2_map_l. pose proof (Forall2_with_In _ _ _ R) as R'.
+      eapply Forall2_impl'; [|exact R']. intros r u [Hru Hr] x' Hx'. cbn [c_scope ca alias_compiled] in Hx'.
+      apply in_map_iff in Hx'. destruct Hx' as [x [<- Hx]].
+      rewrite (get_remap_row m V Inj r x); [| |apply VS; exact Hx].
+      * rewrite (Hru x Hx). unfold evd. rewrite (DefNew x Hx). reflexivity.
+      * intros k Hk. apply VU. apply (KU r k Hr Hk).
+    + rewrite S. unfold ca, alias_compiled. cbn [c_q set_part set_select q_select]. rewrite !map_map. cbn [fst snd].
+      apply map_ext_in. intros u Hu. f_equal. symmetry. apply (LabNew u (a_sel_scope cc A u Hu)).
+    + rewrite G. reflexivity.
+  - destruct A as [A1 A2 A3 A4 A5 A6 A7 A8 A9 A10].
+    constructor; unfold ca, alias_compiled; cbn [c_scope c_defs c_q c_labels set_part set_select q_select q_part q_group q_where q_having q_order q_summ q_limit q_offset].
+    + intros x' Hx'. apply in_map_iff in Hx'. destruct Hx' as [x [<- Hx]]. apply (DomNew x Hx).
+    + intros x' Hx'. apply in_map_iff in Hx'. destruct Hx' as [x [<- Hx]]. apply in_map. apply A2. exact Hx.
+    + intros x' Hx'. apply in_map_iff in Hx'. destruct Hx' as [x [<- Hx]]. rewrite map_app. apply in_or_app. left.
+      rewrite map_map. cbn [fst]. apply in_map_iff. exists (x, remap_uid m x). split; [reflexivity|].
+      apply remap_in. apply Dom. apply A2. exact Hx.
+    + intros x' Hx'. apply in_map_iff in Hx'. destruct Hx' as [x [<- Hx]]. apply in_map. apply A4. exact Hx.
+    + intros x Hx. rewrite map_app. apply in_or_app. right. apply A5. exact Hx.
+    + intros p Hp x Hx. rewrite map_app. apply in_or_app. right. apply (A6 p Hp x Hx).
+    + intros p Hp x Hx. rewrite map_app. apply in_or_app. right. apply (A7 p Hp x Hx).
+    + intros o Ho x Hx. rewrite map_app. apply in_or_app. right. apply (A8 o Ho x Hx).
+    + exact A9.
+    + exact A10.
+Qed.
+
 (* ---------- the theorem ---------- *)
 Theorem compile_invariant d : forall a c, compile a = Some c -> flat_ok a = true -> Inv d (sem_ref d a) c /\ Aux c.
 Proof.
@@ -1921,7 +2015,21 @@ Proof.
     repeat (apply andb_prop in F3; let H := fresh "G" in destruct F3 as [F3 H]).
     destruct (IH cc eq_refl Fa) as [I A]. cbn [sem_ref]. apply negb_true_iff in G5.
     apply (summarize_case d (sem_ref d a) cc defs); assumption.
-  - destruct m as [m|]; [simpl in C; discriminate C|]. simpl in C, F. cbn [sem_ref do_alias]. apply IH; assumption.
+  - destruct m as [m|]; [|simpl in C, F; cbn [sem_ref do_alias]; apply IH; assumption].
+    cbn [compile] in C. cbn [flat_ok] in F. destruct (compile a) as [cc|] eqn:E; [|discriminate C]. inversion C; subst; clear C.
+    apply andb_prop in F. destruct F as [Fa F3]. cbv zeta in F3.
+    repeat (apply andb_prop in F3; let H := fresh "G" in destruct F3 as [F3 H]).
+    destruct (IH cc eq_refl Fa) as [I A]. cbn [sem_ref]. fold (alias_compiled m cc).
+    apply (alias_case d (sem_ref d a) cc m (ast_uids a)); try assumption.
+    + apply (rk_rows _ _ (ref_keys d a)).
+    + intros x y Hx Hy Exy. rewrite forallb_forall in F3. specialize (F3 x Hx).
+      rewrite forallb_forall in F3. specialize (F3 y Hy). rewrite Exy, N.eqb_refl in F3. simpl in F3.
+      apply N.eqb_eq. exact F3.
+    + apply nodup_u_NoDup. assumption.
+    + apply nodup_u_NoDup. assumption.
+    + apply disjointb_spec. assumption.
+    + apply disjointb_spec. assumption.
+    + apply forallb_mem_incl. assumption.
   - destruct (alias_some_dec a) as [[c0 [m ->]]|Hna].
     + rewrite compile_marker_alias in C. rewrite flat_ok_marker_alias in F.
       destruct (compile c0) as [cc|] eqn:E; [|discriminate C]. inversion C; subst; clear C.
